@@ -139,6 +139,8 @@ fn run_workers(prop: &str, tier: &str, seed: u64, b: &Budget, outdir: &str) -> R
                 stale_sites: vec![],
                 markers: vec![],
                 rng_seed: Some(es ^ crate::RNG_SALT),
+                worker_iter: None,
+                replay_with_history: false,
                 case,
                 picks: String::new(),
             };
@@ -416,9 +418,45 @@ pub fn cmd_run(args: &[String]) -> i32 {
             .status()
             .map(|s| s.code() == Some(1))
             .unwrap_or(false);
+        let mut min = min;
         if !ok {
-            eprintln!("HARNESS-ERROR: minimised replay {} does not reproduce in a fresh process", name);
-            return 2;
+            // The single execution does not reproduce on its own. Either the minimiser went wrong
+            // (then the original decision list still reproduces) or the code under test keeps
+            // state outside the simulator's seams (a process-global it added) that carries over
+            // between executions: then the worker's whole sequence up to this execution does.
+            let fresh = |file: &str| {
+                Command::new(std::env::current_exe().unwrap())
+                    .args(["replay", file])
+                    .stdout(Stdio::null())
+                    .stderr(Stdio::null())
+                    .status()
+                    .map(|s| s.code() == Some(1))
+                    .unwrap_or(false)
+            };
+            if fresh(&orig) {
+                let _ = std::fs::copy(&orig, &name);
+                min = rf.clone();
+                println!("  note: the minimised schedule did not reproduce in a fresh process; reporting the original one");
+            } else if rf.worker_iter.is_some() {
+                let mut h = rf.clone();
+                h.replay_with_history = true;
+                h.message = format!(
+                    "{} [reproduces only after the preceding {} executions of the same worker process: state outside the simulated world persists between executions]",
+                    rf.message,
+                    rf.worker_iter.map(|w| w.1).unwrap_or(0)
+                );
+                std::fs::write(&name, serde_json::to_string_pretty(&h).unwrap()).expect("write history replay");
+                if fresh(&name) && fresh(&name) {
+                    println!("  note: the violation reproduces only together with the executions that preceded it in its worker; the replay file re-runs that sequence");
+                    min = h;
+                } else {
+                    eprintln!("HARNESS-ERROR: replay {} does not reproduce in a fresh process (neither minimised, nor original, nor with its worker's history)", name);
+                    return 2;
+                }
+            } else {
+                eprintln!("HARNESS-ERROR: minimised replay {} does not reproduce in a fresh process", name);
+                return 2;
+            }
         }
         // weak-mode alarms need a consistency certificate
         if min.case.cfg.mode == "weak" {
